@@ -263,11 +263,14 @@ func checkConc(c *ConcCase) *Outcome {
 	}
 	// ---- the shared engine has finished its first compilation; shared callables exist
 	// two shared engines (VM and closure back end); program i's shared callable comes from engine i%2
-	sharedEngines := []*yae.Expr{newConcEngine(0), newConcEngine(2)}
+	sharedEngines := []*yae.Expr{newConcEngine(0), newConcEngine(2), newConcEngine(0), newConcEngine(2)}
 	sharedCl := make([]yae.Callable, len(srcs))
-	for _, e := range sharedEngines {
-		if _, err := e.Compile("1", run.TypeEnv(c.Env)); err != nil {
-			return bad("harness: warm-up compile failed: %v", err)
+	for i, e := range sharedEngines {
+		// the first compilation an engine finishes may be an accepted one, one that the parser
+		// refuses, or one that the type checker refuses
+		first := []string{"1", "1", "1 + * 2", "1 + true"}[i]
+		if _, err := e.Compile(first, run.TypeEnv(c.Env)); (err != nil) != (i >= 2) {
+			return bad("harness: warm-up compile of %q: %v", first, err)
 		}
 	}
 	for i, src := range srcs {
@@ -348,7 +351,7 @@ func checkConc(c *ConcCase) *Outcome {
 				case "shared":
 					p = run.Guard(func() {
 						var cl yae.Callable
-						cl, err = sharedEngines[(wi+oi)%2].Compile(srcs[op.Prog], tenv)
+						cl, err = sharedEngines[(wi+oi)%len(sharedEngines)].Compile(srcs[op.Prog], tenv)
 						if err == nil {
 							v, err = cl(venv)
 						}
@@ -428,7 +431,7 @@ func checkConc(c *ConcCase) *Outcome {
 var c14 = Register(&Prop[ConcCase]{ID: "C14", Name: "concurrent-workloads", Gen: genConcCase, Check: checkConc})
 
 func TestC14(t *testing.T) {
-	R.Rule = "generated workloads under the race detector: 4-32 goroutines, each a drawn sequence of 2-8 operations over 2-6 generated programs (mono / poly calls, built-in and user-registered lazy functions incl. ones that force a thunk twice, dynamic calls, literals, programs that render or hash object literals on their first evaluation): compile + invoke on an engine of its own, compile on a shared engine that has finished its first compilation, invoke a shared callable, one-shot Eval, compile one shared parsed tree (Expr.Parse once, Expr.CompileExpr per goroutine on an engine of its own), compile a source that is refused (a program cut short, with a closer missing, a dangling operator or an unknown name) on an engine of its own - the error text, positions included, must be the one the same source gets alone; drawn busy-spin start offsets; oracle: no race report (the detector halts the run; the workload is the replay file) and the environment's values in 1-5 variants (the drawn values, and copies whose every string carries a salt unique to the workload, so that built-ins working on run-time text — match with the pattern from the environment in at least one program per workload — meet text new to the process while other goroutines are inside them); every operation's outcome equals the outcome of the same operation run alone (beforehand for the drawn values, afterwards for the salted ones); non-trivial = at least half of the workload's operations started while another goroutine was inside yae (atomic in-flight counter)"
+	R.Rule = "generated workloads under the race detector: 4-32 goroutines, each a drawn sequence of 2-8 operations over 2-6 generated programs (mono / poly calls, built-in and user-registered lazy functions incl. ones that force a thunk twice, dynamic calls, literals, programs that render or hash object literals on their first evaluation): compile + invoke on an engine of its own, compile on a shared engine that has finished its first compilation (an accepted one, one refused by the parser, or one refused by the type checker), invoke a shared callable, one-shot Eval, compile one shared parsed tree (Expr.Parse once, Expr.CompileExpr per goroutine on an engine of its own), compile a source that is refused (a program cut short, with a closer missing, a dangling operator or an unknown name) on an engine of its own - the error text, positions included, must be the one the same source gets alone; drawn busy-spin start offsets; oracle: no race report (the detector halts the run; the workload is the replay file) and the environment's values in 1-5 variants (the drawn values, and copies whose every string carries a salt unique to the workload, so that built-ins working on run-time text — match with the pattern from the environment in at least one program per workload — meet text new to the process while other goroutines are inside them); every operation's outcome equals the outcome of the same operation run alone (beforehand for the drawn values, afterwards for the salted ones); non-trivial = at least half of the workload's operations started while another goroutine was inside yae (atomic in-flight counter)"
 	R.Assume = []string{"the Go scheduler owns the interleaving: this samples schedules, it does not enumerate them", "the race detector has no false positives"}
 	reportKnown(t, "C14")
 	runRegress(t, "C14")
